@@ -87,6 +87,42 @@ def expected_out(roots):
     return out
 
 
+INCALL = 100  # rounds whose spec index is >= INCALL activate their probe from inside their first call
+
+
+def spec_of(si):
+    return SPECS[si % INCALL]
+
+
+def is_incall(si):
+    return si >= INCALL and spec_of(si)["mode"] == "imm"
+
+
+def with_cb(roots, ti):
+    """The first root with a callback node (fn cbt<ti>) inserted two activations deep if possible."""
+    roots = copy.deepcopy(roots)
+    host = roots[0]
+    for _ in range(2):
+        kids = host["pre"] + host["post"]
+        if not kids:
+            break
+        host = kids[0]
+    host["pre"].insert(0, {"id": 9000 + ti, "fn": f"cbt{ti}", "u0": 0, "w0": 0, "ru": None, "rw": None, "pre": [],
+                           "post": [], "via": False, "catch": False, "raises": False, "ret": 0})
+    return roots
+
+
+def round_expected(si, calls, ti):
+    spec = spec_of(si)
+    if not is_incall(si):
+        return [e for roots in calls for e in expected_events(spec, roots)]
+    first = with_cb(calls[0], ti)
+    tr = M.simulate(first)
+    t_cb = next(b.t for b in tr.binds if b.act.fn == f"cbt{ti}")
+    evs = [e for g in M.immediate_events(spec["sel"], tr, within=lambda t: t > t_cb) for e in g]
+    return evs + [e for roots in calls[1:] for e in expected_events(spec, roots)]
+
+
 def renumber(roots, base):
     k = [base]
 
@@ -134,14 +170,21 @@ def run_schedule(programs, fresh, preempt, by_label=None):
     def prog(i, rounds):
         def run():
             for si, calls in rounds:
-                spec = SPECS[si]
+                spec = spec_of(si)
                 cls = OverridableProbe if spec.get("overridable") else Probe
                 p = cls(G.canonical(spec["sel"]), env=env, raw=spec["mode"] == "total")
                 sink = p.accum()
                 outs = []
-                p.__enter__()
+                if is_incall(si):
+                    # the probe is activated from inside this thread's first call
+                    F.DISPATCH[f"cbt{i}"] = lambda node, p=p: (p.__enter__(), node["ret"])[1]
+                    outs.append(F.drive(with_cb(calls[0], i)))
+                    rest = calls[1:]
+                else:
+                    p.__enter__()
+                    rest = calls
                 try:
-                    for roots in calls:
+                    for roots in rest:
                         outs.append(F.drive(copy.deepcopy(roots)))
                 finally:
                     p.__exit__(None, None, None)
@@ -194,9 +237,8 @@ def check_case(programs, fresh, raw_preempts, max_pre, rec=None, by_label=None):
     # programs: list (per thread) of rounds [(spec index, [roots, ...])], ids made unique per thread
     programs = [[(si, [renumber(r, 100 * (ti + 1) + 30 * ri + 10 * ci) for ci, r in enumerate(calls)])
                  for ri, (si, calls) in enumerate(rounds)] for ti, rounds in enumerate(programs)]
-    want = [[(expected_events(SPECS[si], [n for roots in calls for n in roots]) if False else
-              [e for roots in calls for e in expected_events(SPECS[si], roots)],
-              [expected_out(roots) for roots in calls]) for si, calls in rounds] for rounds in programs]
+    want = [[(round_expected(si, calls, ti), [expected_out(roots) for roots in calls]) for si, calls in rounds]
+            for ti, rounds in enumerate(programs)]
     # baseline (no preemption): measures the switch points and must itself be correct
     s0, res0, prob0, fin0, err0 = run_schedule(programs, fresh, {})
     desc = f"programs {[[(si, [__import__('vlib.treegen', fromlist=['x']).plan_brief(r) for r in calls]) for si, calls in rounds] for rounds in programs]} fresh={fresh}"
@@ -281,7 +323,7 @@ def strategy(max_pre):
         for i in range(n):
             rounds = []
             for _ in range(draw(st.integers(1, 2))):
-                si = draw(st.integers(0, len(SPECS) - 1))
+                si = draw(st.integers(0, len(SPECS) - 1)) + (INCALL if draw(st.integers(0, 3)) == 0 else 0)
                 calls = [draw(plans) for _ in range(draw(st.integers(1, 2)))]
                 rounds.append((si, calls))
             programs.append(rounds)
